@@ -2086,6 +2086,12 @@ func evFieldsDeep(pkgPath string, t types.Type, leaf func(named string) bool) []
 // lock reached through a bound method value, a parameter, a local alias).
 func evLockOp[S comparable](c *EvCtx[S], e *LockEngine, ci ssa.CallInstruction) (string, lockOpKind, bool) {
 	if id, kind, ok := e.lockOp(ci); ok {
+		// a pointer to the lock kept in a local or parameter: look through it
+		if strings.HasPrefix(id, "local:") && len(ci.Common().Args) > 0 {
+			if rid, ok := lockIdent(c.Resolve(ci.Common().Args[0]).V); ok && !strings.HasPrefix(rid, "local:") {
+				return rid, kind, true
+			}
+		}
 		return id, kind, true
 	}
 	if len(ci.Common().Args) == 0 || !isLockName(ci) {
@@ -2108,10 +2114,14 @@ func evLockOp[S comparable](c *EvCtx[S], e *LockEngine, ci ssa.CallInstruction) 
 
 // evWgIdent is wgIdent with the receiver resolved along the path.
 func evWgIdent[S comparable](c *EvCtx[S], v ssa.Value) string {
-	if id := wgIdent(v); id != "?" {
-		return id
+	id := wgIdent(v)
+	if id == "?" || strings.HasPrefix(id, "local:") {
+		// a pointer to the wait group kept in a local or parameter: look through it
+		if rid := wgIdent(c.Resolve(v).V); rid != "?" {
+			return rid
+		}
 	}
-	return wgIdent(c.Resolve(v).V)
+	return id
 }
 
 // evWgArg: the WaitGroup a sync.WaitGroup method call operates on ("?" when the
